@@ -6,6 +6,7 @@ from props.shared import *
 EXPLANATION = ("R-ORDER enqueue-before-count and count-before-wake in Semphore/SyncFlag, R-EXIT try_wait decrements only by a CAS "
                "behind cnt>0 and `true` is returned only with a permit, R-SIB forwarding handshake (a permit handed to a waiter that "
                "times out / is cancelled is re-posted on exactly one side), R-WHO writers of SyncFlag.cnt, R-MO")
+EXPLANATION_2 = ('timed waits report success only with evidence (fast-path test true or park Ok); Semphore/SyncFlag wait wrappers forward')
 NOT_DECIDED = "the counting identity over all interleavings; starvation"
 CONFIGS_QUICK = ["default"]
 
@@ -184,3 +185,5 @@ def check(ctx):
         ctx.ob("R-EXIT", F + "::is_fired", "flag/is-fired-positive", ok, "is_fired() is `cnt.load() > 0`" if ok else "is_fired() is no longer `cnt.load() > 0`", f.where())
     ctx.import_rules("C02", r"^(sync-blocker|blocker|fast-blocker|thread-park)/")
     sync_wrapper_forwarding(ctx)
+    wait_success_evidence(ctx, "may::sync::sync_flag::SyncFlag::wait_timeout_impl", r"may::sync::sync_flag::SyncFlag::is_fired", "flag/true-only-with-evidence", "the flag was seen fired")
+    wait_success_evidence(ctx, "may::sync::semphore::Semphore::wait_timeout_impl", r"may::sync::semphore::Semphore::try_wait", "sem/true-only-with-evidence", "try_wait took a permit")
